@@ -139,4 +139,18 @@ CHECKS = {
         "quick": {"shards": 16, "budget_s": 30, "min_evals": 300, "min_counters": {"appends_completed": 50000, "flush_polls_observed": 5000}},
         "thorough": {"shards": 32, "parallel": 16, "budget_s": 300, "min_evals": 10000, "extras": ["tsan_store"]},
     },
+    "C07": {
+        "engine": "vp-cluster1", "level": "exploration",
+        "rule": "per shard one real single-node ClusterActor (kameo's remote layer allows one per process) with replication factor 1/2/3/5 (by shard) on a 4-bucket database with 96 (256 thorough) partitions; every partition gets a history of 3-11 transactions (1-3 events) written directly into the Database with Transaction::with_confirmation_count(c), c below/at/above quorum per transaction (how a replica stores them); the ConfirmationActor derives the watermark from the on-disk counts; then for every partition: ReadEvent for every event, ReadPartition with start in {0,W-1,W,W+1,end} x end in {None,W-1,W,W+1} x count in {1,2,100}, ReadStream (2 starts x 2 ends) and GetStreamVersion per stream, GetPartitionSequence; the watermark is then moved by ConfirmTransaction messages (two rounds, shuffled) and the matrix repeats. Oracle (safety only): nothing with partition sequence >= W_model is revealed, W_model = longest prefix with count >= rf/2+1 by issued confirmations. non-trivial = distinct (shard, partition, watermark, phase) where an unconfirmed event sits exactly at W and confirmed events exist after it",
+        "assumptions": A_COMMON + ["completeness of reads below the watermark belongs to C22", "the real watermark never exceeds the model's (C08), so a revealed sequence >= W_model is a violation whatever the actor's current watermark is"],
+        "quick": {"shards": 16, "budget_s": 40, "min_evals": 100000, "min_counters": {"confirm_messages": 1500}},
+        "thorough": {"shards": 32, "parallel": 16, "budget_s": 200, "min_evals": 1000000},
+    },
+    "C08": {
+        "engine": "vp-cluster1", "level": "fault_enumeration",
+        "rule": "(a) 15000 (400000 thorough) seeded delivery sequences per shard on the real PartitionConfirmationState: 2-10 transactions of 1-3 versions, rf in {1,2,3,5}, each transaction reported with its final count plus 0-2 stale lower counts and duplicates, shuffled; after every update: watermark monotone and <= longest prefix of versions reported at least once with a quorum count; at the end equal to it. (b) real Database + real BucketConfirmationManager: counts are written to the event records (set_confirmations) before they are reported; the manager persists twice, is dropped at a random step, and the confirmation directory is rewritten to every crash state of persist_bucket_state: temp file at prefix lengths {0,1,2,len/2,len-1,3 random} / complete, previous removed, current renamed to previous, temp renamed to current, plus all state files missing and current corrupt; new + initialize(database) must not lower any partition's watermark. non-trivial = distinct delivery sequences with >= 1 inversion and >= 1 duplicate, and distinct (case, crash state, prefix length)",
+        "assumptions": A_COMMON + ["restart part: on-disk counts only ever increase (the real coordinator never sends a lower count to the same replica after a higher one)"],
+        "quick": {"shards": 16, "budget_s": 30, "min_evals": 100000, "min_counters": {"crash_states.temp-prefix": 500, "crash_states.current-renamed-to-previous": 100}},
+        "thorough": {"shards": 32, "parallel": 16, "budget_s": 200, "min_evals": 5000000},
+    },
 }
